@@ -1,6 +1,6 @@
 // C18 — time, duration and size formatting is total and value-faithful.
 //
-// Parts (select with --arg only=<part>; default = duration+carry+ties+time+size+timeval):
+// Parts (select with --arg only=<part>; default = duration+carry+ties+time+history+size+timeval):
 //   duration  every microsecond in B +- W around the unit boundaries (1 s, 60 s, 3600 s, 86400 s)
 //             x precision -1..6; W = 2 s in thorough (exhaustive), 20 ms in quick
 //   ties      decimal rounding ties of the seconds field, t = (m + 0.5) * 10^(6-p) us for p = 0..5 (all of them for
@@ -9,6 +9,8 @@
 //   carry     k*60 s - 1 us .. + 1 us for k <= 10^4, hour/day multiples, boundary table, random durations
 //   time      format_time(t) against an independent civil calendar (naive year/month table walk;
 //             *not* gmtime) for 1970..9999; TZ is set to a non-UTC zone so a local-time rendering shows
+//   history   call histories on one thread and on four concurrent threads: format_time_natural (local time, NOT judged)
+//             on the same / neighbouring second, format_duration, format_size, then format_time -> must be UTC
 //   size      format_size / parse_size agreement at every power-of-1024 boundary, rounding ties, random
 //   timeval   usecs_to_timeval / timeval_to_usecs exact inverses
 //   dump      writes (t, text) and (usecs, precision, text) lines to <out>.c18dump for the Python oracle
@@ -27,6 +29,8 @@
 #include <time.h>
 
 #include <exception>
+#include <map>
+#include <thread>
 #include <initializer_list>
 #include <stdexcept>
 #include <string>
@@ -472,6 +476,108 @@ static void time_suite(vf::Rng& r, bool dump_mode) {
 }
 
 // --------------------------------------------------------------------------------------------------------
+// call HISTORIES: format_time must render UTC whatever was called before it on the same thread or concurrently on other
+// threads — in particular format_time_natural (local time; its own output is not in the statement and is NOT judged) on
+// the same or a neighbouring second, with format_duration / format_size calls in between.  Worker code never touches the
+// shared Ctx: it collects its findings locally and the main thread merges them after join.
+
+struct HistoryFinding {
+  string key, what, kase;
+};
+struct HistoryResult {
+  vector<HistoryFinding> findings;
+  map<string, uint64_t> classes;
+  uint64_t evaluations = 0;
+};
+
+static const uint64_t HISTORY_SECOND_POOL[] = {0, 1, 59, 86399, 86400, 951782399, 951782400, 1700000000, 1700000001, 2147483647, 2147483648ULL, 4107542399ULL, 4107542400ULL,
+    32503679999ULL, 253402300799ULL};
+
+static void run_histories(vf::Rng r, uint64_t n, bool threaded, HistoryResult& out) {
+  const size_t npool = sizeof(HISTORY_SECOND_POOL) / sizeof(HISTORY_SECOND_POOL[0]);
+  for (uint64_t h = 0; h < n; h++) {
+    // anchor second: from the shared pool (so that different threads hit the same seconds at the same time) or random
+    uint64_t sec = r.chance(1, 2) ? HISTORY_SECOND_POOL[r.below(npool)] : r.below(T_MAX / US);
+    const char* prev = "start";
+    string trail;
+    int len = 3 + (int)r.below(8);
+    for (int i = 0; i < len; i++) {
+      int op = (int)r.below(10);
+      if (op <= 2) {  // format_time_natural on the anchor second or a neighbour: NOT judged
+        uint64_t s2 = sec + (uint64_t)r.range(sec ? -1 : 0, 1);
+        vf::poison_errno();
+        if (r.chance(1, 2)) {
+          (void)phosg::format_time_natural(s2 * US + r.below(US));
+        } else {
+          struct timeval tv;
+          tv.tv_sec = (time_t)s2;
+          tv.tv_usec = (suseconds_t)r.below(US);
+          (void)phosg::format_time_natural(&tv);
+        }
+        prev = "format_time_natural";
+        trail += fmt(" natural(%" PRIu64 " s)", s2);
+      } else if (op == 3) {
+        vf::poison_errno();
+        (void)phosg::format_time_natural();  // current time
+        prev = "format_time_natural";
+        trail += " natural(now)";
+      } else if (op == 4) {
+        vf::poison_errno();
+        (void)phosg::format_duration(r.next() >> r.below(64), (int8_t)r.range(-1, 6));
+        trail += " duration";
+      } else if (op == 5) {
+        vf::poison_errno();
+        (void)phosg::format_size((size_t)(r.next() >> r.below(64)), r.chance(1, 2));
+        trail += " size";
+      } else {  // format_time on the same / neighbouring / an unrelated second: judged against the UTC calendar
+        int rel = (int)r.below(8);
+        uint64_t s2 = rel <= 3 ? sec : rel == 4 ? sec + 1 : rel == 5 ? (sec ? sec - 1 : 0) : rel == 6 ? sec + 3600 * (uint64_t)r.range(1, 6) : r.below(T_MAX / US);
+        uint64_t t = s2 * US + (r.chance(1, 4) ? 0 : r.chance(1, 3) ? 999999 : r.below(US));
+        if (t > T_MAX) t = T_MAX;
+        vf::poison_errno();
+        string text = phosg::format_time(t);
+        out.evaluations++;
+        string want = civil_text(t);
+        const char* relname = rel <= 3 ? "same-second" : rel == 4 ? "next-second" : rel == 5 ? "previous-second" : rel == 6 ? "hours-later" : "unrelated";
+        if (text != want) {
+          const char* what = text.size() != want.size() ? "shape" : text.compare(0, 10, want, 0, 10) != 0 ? "date" : text.compare(0, 19, want, 0, 19) != 0 ? "time-of-day" : "microseconds";
+          out.findings.push_back({fmt("format_time:history%s:after-%s:%s", threaded ? "-threads" : "", prev, what),
+              fmt("format_time differs from the UTC calendar after this call history on the same thread%s", threaded ? " (three other threads running histories concurrently)" : ""),
+              fmt("...%s; then format_time(%" PRIu64 ") = \"%s\" expected \"%s\"", trail.size() > 300 ? trail.substr(trail.size() - 300).c_str() : trail.c_str(), t, vf::json_escape(text).c_str(),
+                  want.c_str())});
+        }
+        out.classes[fmt("history%s:after-%s:%s", threaded ? "-threads" : "", prev, relname)]++;
+        prev = "format_time";
+        trail += fmt(" time(%" PRIu64 ")", t);
+      }
+    }
+  }
+}
+
+static void merge_history(const HistoryResult& hr) {
+  C->evaluations += hr.evaluations;
+  for (auto& f : hr.findings) C->violation(f.key, f.what, f.kase);
+  for (auto& kv : hr.classes) C->cls(kv.first, kv.second);
+}
+
+static void history_suite() {
+  C->crumb("call histories mixing format_time_natural / format_time / format_duration / format_size (TZ=VRF-05:45)");
+  uint64_t n = C->qt<uint64_t>(40000, 800000) / C->nshards + 1;
+  {
+    HistoryResult hr;
+    run_histories(C->rng(7), n, false, hr);
+    merge_history(hr);
+  }
+  // four threads at once, each with its own stream, all drawing anchor seconds from the same small pool
+  const int NT = 4;
+  HistoryResult hrs[NT];
+  vector<std::thread> ts;
+  for (int i = 0; i < NT; i++) ts.emplace_back([&, i]() { run_histories(C->rng(8 + (uint64_t)i), n / 2 + 1, true, hrs[i]); });
+  for (auto& t : ts) t.join();
+  for (int i = 0; i < NT; i++) merge_history(hrs[i]);
+}
+
+// --------------------------------------------------------------------------------------------------------
 // sizes
 
 static const char UNITS[] = "KMGTPE";
@@ -760,6 +866,7 @@ int main(int argc, char** argv) {
     vf::Rng r = c.rng(2);
     time_suite(r, false);
   }
+  if (want("history")) history_suite();
   if (want("size")) {
     vf::Rng r = c.rng(3);
     size_suite(r);
